@@ -99,7 +99,7 @@ def run_C01(ctx):
         ("rel", "P1", "S0", D, pr, {}), ("rel", "P3", "S0", D, pr, {}), ("rel", "P2", "S0", 4 if q else 5, pr, {}),
         ("rel", "P3r", "S0", 4 if q else 5, pr, {}),
         ("rel", "P1", "S1", 4 if q else 6, pr, {}), ("rel", "P1", "S2", 4 if q else 6, pr, {}), ("rel", "P1", "S3", 4 if q else 6, pr, {}), ("rel", "P1", "S4", 4 if q else 6, pr, {}),
-        ("rel", "P7t", "S0", 4 if q else 6, pr, {}), ("rel", "P4h", "S0", 4 if q else 6, pr, {}),
+        ("rel", "P7t", "S0", 4 if q else 6, pr, {}), ("rel", "P4h", "S0", 4 if q else 6, pr, {}), ("rel", "P4d", "S0", 5 if q else 7, pr, {}), ("rel", "P4d", "S6", 5 if q else 7, pr, {}),
         ("dbg", "P1", "S0", 4 if q else 6, pr, {}), ("sec", "P1", "S0", 4 if q else 6, pr, {}),
         ("dbg", "P2", "S0", 3 if q else 4, pr, {}), ("sec", "P3r", "S0", 3 if q else 4, pr, {}),
     ]
@@ -365,7 +365,7 @@ NOARENA = {"MIMALLOC_DISALLOW_ARENA_ALLOC": "1"}
 def run_C02(ctx):
     q = ctx.quick
     B = 2
-    plan = [("rel", p, B, 1, {}) for p in ("H1", "H2", "H3", "H4", "H5", "D1")] + [("rel", "E5", B, 1, RF), ("rel", "E1", B, 1, RF)]
+    plan = [("rel", p, B, 1, {}) for p in ("H1", "H2", "H3", "H4", "H5", "D1")] + [("rel", "E5", B, 1, RF), ("rel", "E1", B, 1, RF), ("rel", "H4", B, 0, {"VF_RESET_ZERO": "1"})]
     plan += [("dbg", "H2", 1 if q else 2, 1, {}), ("sec", "H3", 1 if q else 2, 1, {})]
     if q: plan += [("rel", ("family", 0, 700, ), 1, 0, {})]
     else: plan += [("rel", ("family", 0, 750), 2, 1, {}), ("rel", "H2", 3, 2, {}), ("rel", "H3", 3, 2, {}), ("rel", "H1", 3, 2, {}), ("rel", "H5", 3, 2, {}), ("dbg", "H5", 2, 1, {}), ("sec", "H2", 2, 1, {})]
@@ -375,7 +375,7 @@ def run_C02(ctx):
 
 def run_C08(ctx):
     q = ctx.quick
-    plan = [("rel", p, 2, 1, {}) for p in ("H2", "H3", "H5", "D1", "D3")] + [("rel", "PC", 2 if q else 3, 0, {})]
+    plan = [("rel", p, 2, 1, {}) for p in ("H2", "H3", "H5", "D1", "D3")] + [("rel", "PC", 2 if q else 3, 0, {}), ("rel", "R1", 2 if q else 3, 0, RF), ("rel", "R2", 2 if q else 3, 0, RF)]
     plan += [("dbg", "H2", 1 if q else 2, 1, {})]
     if q: plan += [("rel", ("family", 0, 700), 1, 0, {})]
     else: plan += [("rel", ("family", 0, 750), 2, 1, {}), ("rel", "H2", 3, 1, {}), ("rel", "H3", 3, 2, {}), ("sec", "H3", 2, 1, {})]
